@@ -68,3 +68,11 @@ Theorem C01_bridge_moves_are_pipe_moves : forall fuel b e b' r e' log,
   [pe_li e'; pe_mo e'] = move 0 k [pe_li e; pe_mo e] \/
   [pe_li e'; pe_mo e'] = move_eof 0 (move 0 k [pe_li e; pe_mo e]).
 Proof. exact bridge_moves_are_pipe_moves. Qed.
+
+(* ... and so is each direction of a logical stream (Flow/Core.v, the model C02-C05 are proved
+   on): for every window, threshold and abort-free label sequence, its written / in-flight /
+   held / read bytes are those of a two-hop relay pipeline driven by the events the labels amount to *)
+From PV Require Import Flow.Core Flow.Relay.
+Theorem C01_stream_is_relay : forall w t ls, 1 <= t -> 1 <= w < 4294967296 -> Forall no_abort ls ->
+  same_pipe (fold_left pstep (all_evs (init w t) ls) (pinit 1)) (run (init w t) ls).
+Proof. exact flow_is_pipe. Qed.
